@@ -57,6 +57,8 @@ class Cmd:
         return self.env.get(name.lower())
 
     def setvar(self, name, value):
+        if len(value) > 100000:
+            raise Budget()               # a diverging script must not exhaust memory
         if value == "":
             self.env.pop(name.lower(), None)
         else:
@@ -433,11 +435,10 @@ class Cmd:
             return
         if low.startswith("call "):
             raise Stuck("external program call")
-        if low == "echo.":
-            self.out.append("")
-            return
-        if low.startswith("echo "):
-            self.out.append(self.delayed(self.subst_for(ln[5:], forvals)))
+        if low == "echo." or low.startswith("echo "):
+            if len(self.out) > 5000:
+                raise Budget()
+            self.out.append("" if low == "echo." else self.delayed(self.subst_for(ln[5:], forvals)))
             return
         m = re.match(r'^for /f "delims=" \x00([a-zA-Z]) in \("(.*)"\) do (.*)$', ln)
         if m:
